@@ -16,7 +16,7 @@ def parseKind : String → Option Kind
   | "encrypt0" => some .encrypt0 | "encrypt" => some .encrypt | _ => none
 
 def parseMode : String → Option PMode
-  | "raw" => some .raw | "rawmsg" => some .rawMsg | "typed" => some .typed
+  | "raw" => some .raw | "rawmsg" => some .rawMsg | "typed" => some .typed | "named" => some .named
   | "gomap" => some .typed     -- a plain Go map payload: same bytes as the CoseMap with these entries (sorted, shortest)
   | _ => none
 
@@ -68,12 +68,16 @@ def parsePayload (mode : PMode) (t : List String) : Option PVal :=
     else match parseWhole t with
       | some v => (cmapOfGoMapLoose v).map (fun m => .typed (some m))
       | none => none
+  | .named => match t with
+    | [h] => (unhexOpt h).map .named
+    | _ => none
   | _ => match t with
     | [h] => (unhexOpt h).map .bytes
     | _ => none
 
 def payloadDump : PVal → String
   | .bytes b => hexOpt b
+  | .named b => hexOpt b
   | .typed none => "nil"
   | .typed (some m) => match encodeCMap m with | some b => hex b | none => "unencodable"
 
